@@ -167,6 +167,22 @@ func (t1 *Type1Font) parseEncoding(fontDict core.Dict, resolver func(core.Indire
 // applyEncodingDifferences applies the Differences array to customize encoding
 // Format: [code name1 name2 ... code name1 name2 ...]
 func (t1 *Type1Font) applyEncodingDifferences(diffs core.Array) error {
+	differences, err := parseEncodingDifferences(diffs)
+	if err != nil {
+		return err
+	}
+	t1.Differences = differences
+	return nil
+}
+
+// parseEncodingDifferences reads a Differences array (ISO 32000-1 9.6.6.1):
+// an integer sets the current code, every glyph name that follows redefines
+// the current code and advances it by one. Glyph names become Unicode through
+// glyphNameToUnicode. A name the table does not know leaves the code to the
+// base encoding rather than inventing text for it; when a code is named more
+// than once the last name decides.
+func parseEncodingDifferences(diffs core.Array) (map[byte]rune, error) {
+	differences := make(map[byte]rune)
 	code := 0
 	for _, item := range diffs {
 		switch v := item.(type) {
@@ -175,15 +191,19 @@ func (t1 *Type1Font) applyEncodingDifferences(diffs core.Array) error {
 			code = int(v)
 		case core.Name:
 			// This is a glyph name mapped to current code
-			// We would need a glyph name to Unicode mapping table here
-			// For now, just increment the code
-			// TODO: Implement proper glyph name to Unicode mapping
+			if code >= 0 && code <= 255 {
+				if r, ok := glyphNameToUnicode[string(v)]; ok {
+					differences[byte(code)] = r
+				} else {
+					delete(differences, byte(code))
+				}
+			}
 			code++
 		default:
-			return fmt.Errorf("invalid differences array item: %T", item)
+			return nil, fmt.Errorf("invalid differences array item: %T", item)
 		}
 	}
-	return nil
+	return differences, nil
 }
 
 // parseWidths extracts character width information from the font dictionary
